@@ -4,6 +4,7 @@ CONSTANTS
   Bodies <- BodiesH
   Modes <- OnlyAnsi
   ValueChoices <- DefaultValues
+  Ends <- OneEnd
   Seconds <- NoSecond
   TickMs <- Ticks1
   MaxTicks = 2
